@@ -205,7 +205,7 @@ class Evaluator:
             if is_unknown(v):
                 return v
             return F.fn("abs", need(v))
-        if d in ("float", "np.asarray", "np.array", "np.atleast_1d", "np.real", "complex") and len(node.args) >= 1:
+        if d in ("float", "np.asarray", "np.array", "np.atleast_1d", "np.atleast_2d", "np.real", "complex") and len(node.args) >= 1:
             return self._ev(node.args[0])
         if isinstance(node.func, ast.Attribute) and node.func.attr in IDENT_METHODS:
             return self._ev(node.func.value)
